@@ -2,6 +2,7 @@ package sim
 
 import (
 	"bytes"
+	"strings"
 
 	cose "github.com/veraison/go-cose"
 
@@ -13,7 +14,7 @@ func init() {
 	Scenarios["C09"] = scenarioC09
 	Infos["C09"] = ScenarioInfo{
 		Level: "exploration",
-		Rule: "one run = a relay chain: an accepted wire message (issued by the foreign peer in a non-deterministic encoding, or by go-cose; Sign1 tagged/untagged, Sign, nested countersignatures single/list/abbreviated; optionally re-widthed / key-reordered / unprotected-edited in flight) " +
+		Rule: "one run = a relay chain: an accepted wire message (issued by the foreign peer in a non-deterministic encoding, or by go-cose; Sign1 tagged/untagged, Sign, nested countersignatures single/list/abbreviated; optionally re-widthed / key-reordered / unprotected-edited / wrapped in one more outer tag in flight; a sixth of the messages carry tagged values - date/time, URI, UUID, bignum, unassigned tags - in protected headers) " +
 			"passes 1..6 relay hops, each of which decodes and re-encodes it, keeping or discarding the retained raw header bytes as the tape decides. While every hop kept the raw bytes the output must equal the reference prediction " +
 			"(both header buckets of every layer byte-identical; only payload/signature/signatures-array heads re-headed), equal the input when that was deterministic, and every signature and countersignature must keep its verdict. " +
 			"After a hop that discarded the raw bytes the output must be deterministic CBOR (inside protected headers too) and every later hop, keeping or discarding, must reproduce it byte for byte. " +
@@ -31,6 +32,9 @@ func scenarioC09(r *Run) {
 	so := SpecOpts{MaxExtra: 4, MaxSigner: 3, Cheap: true, BigOK: bigOK(r, "c09.big")}
 	if t.Bool(1, 6, "c09.manylabels") {
 		so.MaxExtra = 30
+	}
+	if t.Bool(1, 6, "c09.tagged") {
+		so.TaggedProtected = true
 	}
 	w := r.GenWire(t, TrafficOpts{Spec: so, CsigDepth: 2, Abbrev: true, ForeignPct: 60}, ent)
 	if w == nil {
@@ -101,6 +105,7 @@ func scenarioC09(r *Run) {
 		r.Probe("input-canonical")
 	}
 
+	first := cur
 	hops := 1 + t.Choose(6, "c09.hops")
 	dropped := false
 	var fixpoint []byte
@@ -109,6 +114,11 @@ func scenarioC09(r *Run) {
 		if h > 0 {
 			rc, err = r.Decode(spec.Kind, cur)
 			r.Check()
+			if err != nil && dropped && strings.Contains(err.Error(), "overflows Go's int64") && bignumBeyondInt64InProtected(w.Dec, first) {
+				// root cause known: see known_findings.json
+				r.Fail("reencoding-breaks/bignum-beyond-int64", "hop %d: a protected header carries a bignum (tag 2/3) whose value needs more than int64 but fits 64 bits; after the raw bytes were discarded it was re-encoded as a plain 8-byte integer, which the decoder refuses: %v\naccepted input: %s\nre-encoded:     %s", h, err, hexShort(first), hexShort(cur))
+				return
+			}
 			if err != nil {
 				r.Fail("reencoded-output-refused/"+spec.Kind.String(), "hop %d: the output of the previous hop is refused by the decoder: %v\nbytes: %s", h, err, hexShort(cur))
 				return
